@@ -1,8 +1,10 @@
 package main
 
 import (
+	"bytes"
 	"fmt"
 	"os"
+	"runtime/pprof"
 	"sort"
 	"strings"
 	"sync"
@@ -68,11 +70,11 @@ func takeSample(cycle int, envs []*env) sample {
 		}
 		last = g
 	}
-	s := sample{cycle: cycle, sites: h.GoroutinesBySite(), gor: h.Goroutines(), fds: h.FDCount(), tables: map[string]int{}}
+	s := sample{cycle: cycle, sites: goroutinesBySite(), gor: h.Goroutines(), fds: h.FDCount(), tables: map[string]int{}}
 	for i := 0; i < 4; i++ {
 		time.Sleep(120 * time.Millisecond)
 		for site, n := range s.sites {
-			if m := h.GoroutinesBySite()[site]; m < n {
+			if m := goroutinesBySite()[site]; m < n {
 				s.sites[site] = m
 			}
 		}
@@ -89,6 +91,48 @@ func takeSample(cycle int, envs []*env) sample {
 		}
 	}
 	return s
+}
+
+// goroutinesBySite groups live goroutines by the outermost frp function on their stack (their entry point inside
+// frp), or by their outermost function otherwise. (h.GoroutinesBySite loses the first block of the profile, the one
+// that follows the "goroutine profile: total N" header line, which is the largest group.)
+func goroutinesBySite() map[string]int {
+	var buf bytes.Buffer
+	_ = pprof.Lookup("goroutine").WriteTo(&buf, 1)
+	out := map[string]int{}
+	for _, blk := range strings.Split(buf.String(), "\n\n") {
+		lines := strings.Split(strings.TrimSpace(blk), "\n")
+		if len(lines) > 0 && strings.HasPrefix(lines[0], "goroutine profile:") {
+			lines = lines[1:]
+		}
+		if len(lines) < 2 {
+			continue
+		}
+		var n int
+		if _, err := fmt.Sscanf(lines[0], "%d @", &n); err != nil {
+			continue
+		}
+		site := ""
+		for i := len(lines) - 1; i >= 1; i-- {
+			f := strings.Fields(lines[i])
+			if len(f) < 3 || f[0] != "#" {
+				continue
+			}
+			fn := f[2]
+			if j := strings.LastIndex(fn, "+0x"); j > 0 {
+				fn = fn[:j]
+			}
+			if site == "" {
+				site = fn
+			}
+			if strings.Contains(fn, "github.com/fatedier/frp/") {
+				site = fn
+				break
+			}
+		}
+		out[site] += n
+	}
+	return out
 }
 
 type slopeWorld struct {
@@ -243,8 +287,10 @@ func leakSlopes(c *h.Case, envs []*env, cycles int) {
 		siteNames = append(siteNames, site)
 	}
 	sort.Strings(siteNames)
+	siteFlagged := false
 	for _, site := range siteNames {
 		if grows(s1.sites[site], s2.sites[site], s3.sites[site]) {
+			siteFlagged = true
 			run.Violation("goroutine-growth-"+siteKey(site), "goroutines created at %s: %d, %d, %d after %d, %d, %d identical cycles (same names) on each of %d servers",
 				site, s1.sites[site], s2.sites[site], s3.sites[site], s1.cycle, s2.cycle, s3.cycle, len(envs))
 		}
@@ -252,7 +298,7 @@ func leakSlopes(c *h.Case, envs []*env, cycles int) {
 	if os.Getenv("C10_DEBUG") != "" {
 		fmt.Fprintf(os.Stderr, "slope site diff: %v\nsites: %v\n", h.DiffSites(s1.sites, s3.sites), s3.sites)
 	}
-	if grows(s1.gor, s2.gor, s3.gor) {
+	if !siteFlagged && grows(s1.gor, s2.gor, s3.gor) {
 		run.Violation("goroutine-growth-total", "goroutines of the process: %d, %d, %d after %d, %d, %d identical cycles (same names) on each of %d servers; sites that grew: %v",
 			s1.gor, s2.gor, s3.gor, s1.cycle, s2.cycle, s3.cycle, len(envs), h.DiffSites(s1.sites, s3.sites))
 	}
